@@ -1,6 +1,6 @@
 """C13 MPSA reproduces linear displacement fields exactly.
 
-Spec: {"grid": grid spec, "lame": {"mu","lmbda"}, "bc": vectorial bc spec, "field": {"c","G"}}
+Spec: {"grid": grid spec, "lame": {"mu","lmbda"}, "bc": vectorial bc spec, "field": {"c","G"}, "reuse": null|{...}}
 (see gen/fv_mech.py).  The stress / bound_stress / bound_displacement_* matrices of pp.Mpsa
 are applied to u(x) = c + G x sampled at cell centres and to the matching boundary data
 (Dirichlet: u at the face centre; Neumann: exact outward traction integrated over the face)
@@ -23,7 +23,11 @@ RULE = (
     "linear displacement field u = c + G x (general, symmetric, skew = rigid rotation, volumetric, G = 0 = "
     "translation) and a per-face Dirichlet/Neumann assignment from the admissible classes of the property: "
     "all Dirichlet; 2-d any mix (incl. all Neumann, one Dirichlet face); 3-d mix built greedily so that no two "
-    "Neumann faces share an edge (never by rejection; re-verified independently per case). Oracle (analytic): "
+    "Neumann faces share an edge (never by rejection; re-verified independently per case). In three quarters of "
+    "the cases the matrices asserted on come from a RE-discretisation: first another admissible assignment / other "
+    "Lame parameters / stretched node coordinates, then in-place edits (is_dir / is_neu of the same bc object, mu "
+    "/ lmbda / values of the same tensor, nodes + compute_geometry) to the case proper, directly or there-and-back, "
+    "same or new Mpsa object, same or new data dictionary. Oracle (analytic): "
     "stress u + bound_stress bc = sigma n_f on every non-Neumann face; for the translation part c alone zero "
     "traction on every face; bound_displacement_cell u + bound_displacement_face bc = u(x_f) on Dirichlet "
     "faces; all to 1e-9 of the magnitude of the summed terms (|M||v|). Reconstruction on Neumann faces is not "
@@ -49,7 +53,10 @@ ASSUMPTIONS = [
 ]
 REQUIRED = {"dim2": 0.2, "dim3": 0.2, "neumann-present": 0.3, "bc-all_dir": 0.05, "bc-mix": 0.25,
             "field-rotation": 0.03, "field-translation": 0.03, "field-general": 0.12,
-            "kind-tri": 0.02, "kind-tet": 0.01, "kind-poly": 0.02, "kind-polyx": 0.01, "perturbed": 0.05}
+            "kind-tri": 0.02, "kind-tet": 0.01, "kind-poly": 0.02, "kind-polyx": 0.01, "perturbed": 0.05,
+            "reuse-none": 0.1, "reuse-bc-edited": 0.15, "reuse-geometry-edited": 0.05, "reuse-stiffness-edited": 0.05,
+            "reuse-back": 0.08, "reuse-forward": 0.08, "reuse-same-discr": 0.08, "reuse-new-discr": 0.08,
+            "reuse-same-data": 0.08, "reuse-new-data": 0.08}
 
 FINDING_MIXED_FACES = "C13-mpsa-neumann-rhs-mixed-face-node-counts"
 
@@ -79,7 +86,7 @@ def _spec(draw, tier):
     if g["dim"] == 2:
         modes = modes + ("all_neu",)
     return {"grid": g, "lame": draw(fm.lame_spec()), "bc": draw(fm.vbc_spec(modes=modes)),
-            "field": draw(fm.displacement_spec())}
+            "field": draw(fm.displacement_spec()), "reuse": draw(fm.reuse_spec(("mix", "mix", "all_dir", "one_dir")))}
 
 
 def strategy(tier):
@@ -98,7 +105,17 @@ def check(spec):
     bc, is_dir, is_neu = fm.build_vbc(spec["bc"], g)
     if nd == 3 and fm.neumann_faces_share_edge(g, is_neu):
         raise HarnessError("generator produced two Neumann faces sharing an edge in 3-d")
-    M = fm.discretize_mpsa(g, lame, bc)
+    # single discretisation, or re-discretisation after in-place edits of bc types / geometry / stiffness
+    # (fm.discretize_sequence); everything below is asserted on the last discretisation
+    reuse = spec.get("reuse")
+
+    def other_types(bc0):
+        _, d0, n0 = fm.build_vbc(bc0, g)
+        return d0, n0
+
+    states = fm.reuse_states(g, reuse, (is_dir, is_neu), lame, other_types)
+    M = fm.discretize_sequence(g, "mpsa", states, same_discr=bool(reuse and reuse["same_discr"]),
+                               same_data=bool(reuse and reuse["same_data"]))
     stress, bstress = M["stress"], M["bound_stress"]
 
     u = fm.flat(fm.displacement_at(fs, g.cell_centers, nd))
@@ -129,7 +146,7 @@ def check(spec):
                   what="bound_displacement_cell u + bound_displacement_face bc vs u(x_f)")
 
     meta = grid_meta(spec["grid"])
-    labels = list(meta["labels"]) + ["bc-" + spec["bc"]["mode"], "field-" + fs["kind"]]
+    labels = list(meta["labels"]) + ["bc-" + spec["bc"]["mode"], "field-" + fs["kind"]] + fm.reuse_labels(reuse)
     n_neu, n_dir = int(is_neu.sum()), int(is_dir.sum())
     if n_neu:
         labels.append("neumann-present")
